@@ -144,7 +144,7 @@ def one_network(M, rec, rng, g, desc, built, tier):
     from vf import compilecases as CC
 
     for st in ("SX", "MX"):
-        cand = CC.candidate_params(desc, pars)
+        cand = CC.candidate_params(desc, pars, geometry=True)  # also lanes (where no lane-drop term is asked for) and lengths
         keys = [("#", "T")] + rng.sample(cand, rng.randint(0, min(3, len(cand))))
         keys = list(dict.fromkeys(keys))
         case_p = dict(case0, pars=pars, engine=st, symbolic_parameters=[list(k_) for k_ in keys])
